@@ -186,7 +186,7 @@ impl<'de, 'a> de::Deserializer<'de> for &'a mut Deserializer<'de> {
         match self.input {
             Value::Null => visitor.visit_seq(ListAccess::empty()),
             Value::Vector(elements) => visitor.visit_seq(VecAccess::new(elements)),
-            Value::Cons(cell) => visitor.visit_seq(ListAccess::new(cell)),
+            Value::Cons(cell) => visitor.visit_seq(ListAccess::new(cell)?),
             _ => Err(invalid_value(self.input, "list")),
         }
     }
@@ -197,7 +197,7 @@ impl<'de, 'a> de::Deserializer<'de> for &'a mut Deserializer<'de> {
     {
         match self.input {
             Value::Vector(elements) => visitor.visit_seq(VecAccess::new(elements)),
-            Value::Cons(cell) => visitor.visit_seq(ListAccess::new(cell)),
+            Value::Cons(cell) => visitor.visit_seq(ListAccess::new(cell)?),
             _ => Err(invalid_value(self.input, "list")),
         }
     }
@@ -362,8 +362,18 @@ struct ListAccess<'a> {
 }
 
 impl<'a> ListAccess<'a> {
-    fn new(cell: &'a Cons) -> Self {
-        ListAccess { cursor: Some(cell) }
+    /// Only a proper list is a sequence. A visitor for a fixed number of
+    /// elements may stop before it reaches the tail, so the tail is checked
+    /// here rather than when the last element is handed out.
+    fn new(cell: &'a Cons) -> Result<Self> {
+        let mut last = cell;
+        loop {
+            match last.cdr() {
+                Value::Cons(next) => last = next,
+                Value::Null => return Ok(ListAccess { cursor: Some(cell) }),
+                tail => return Err(invalid_value(tail, "cons cell or end of list")),
+            }
+        }
     }
     fn empty() -> Self {
         ListAccess { cursor: None }
